@@ -38,6 +38,12 @@ pub fn run_py_entry(args: &[String], stdin: Option<&[u8]>, timeout_s: u64) -> Cl
 thread_local! {
     /// environment of the next program runs of this thread: extra variables, variables to remove, working directory
     pub static RUN_ENV: std::cell::RefCell<(Vec<(String, String)>, bool, Option<std::path::PathBuf>)> = std::cell::RefCell::new((Vec::new(), false, None));
+    /// when > 0, the next program runs of this thread may use only that many CPUs (a small container, taskset)
+    pub static RUN_CPUS: std::cell::Cell<usize> = std::cell::Cell::new(0);
+}
+
+pub fn set_run_cpus(n: usize) {
+    RUN_CPUS.with(|c| c.set(n));
 }
 
 pub fn set_run_env(vars: Vec<(String, String)>, minimal: bool, cwd: Option<std::path::PathBuf>) {
@@ -58,6 +64,28 @@ pub fn run_program(program: &str, pre: &[String], args: &[String], stdin: Option
     }
     if let Some(d) = &cwd {
         cmd.current_dir(d);
+    }
+    let cpus = RUN_CPUS.with(|c| c.get());
+    if cpus > 0 {
+        use std::os::unix::process::CommandExt;
+        unsafe {
+            cmd.pre_exec(move || {
+                // restrict the child to the first `cpus` CPUs it is allowed to use
+                let mut cur: libc::cpu_set_t = std::mem::zeroed();
+                if libc::sched_getaffinity(0, std::mem::size_of::<libc::cpu_set_t>(), &mut cur) == 0 {
+                    let mut set: libc::cpu_set_t = std::mem::zeroed();
+                    let mut taken = 0;
+                    for i in 0..libc::CPU_SETSIZE as usize {
+                        if libc::CPU_ISSET(i, &cur) && taken < cpus {
+                            libc::CPU_SET(i, &mut set);
+                            taken += 1;
+                        }
+                    }
+                    libc::sched_setaffinity(0, std::mem::size_of::<libc::cpu_set_t>(), &set);
+                }
+                Ok(())
+            });
+        }
     }
     cmd.args(pre)
         .args(args)
